@@ -175,6 +175,8 @@ def run(chk):
               f"a path leaves the class default (False) in force although the server confirmed CRC: corrupted data is returned unchecked: {path_text(wit) if wit else ''}")
     st = attr_stores(init.node, "_crc")
     chk.check(len(st) == 1 and src(st[0].value) == "sdo_client.crc_cls()", "R5", f"{CL}:{C}.__init__ | fresh CRC per transfer", init.loc(), "")
+    from .c12 import crc_identity as _crc_identity
+    _crc_identity(chk, "R5")
     procs = [n for n in ff.cfg.nodes if node_calls(n, "self._crc.process")]
     chk.check(len(procs) == 1, "R5", f"{CL}:{C}.read | one CRC update per segment", rd.loc(), f"{len(procs)}")
     for p in procs:
